@@ -9,6 +9,7 @@
 -/
 import GoNeat.Model.Epoch
 import GoNeat.Proofs.MateLemmas
+import GoNeat.Proofs.PrefixDet2
 
 namespace GoNeat.NoErr
 open GoNeat Scalar
@@ -68,19 +69,30 @@ theorem SafeE.mono {P Q : α → Prop} {r : Except Stop α} (h : SafeE P r) (hpq
 
 /-! ### the random primitives -/
 
-/-- `rand.Float64` returns a unit-interval draw different from 1 -/
-def IsDraw (f : W) : Prop := ∃ x : Nat, f = ofUnit63 x ∧ eq f one = false
+/-- the raw stream consists of 63-bit values — what `rand.Int63()` returns (DESIGN §2.3).  The float facts
+    (`UnitMulLe`, `PickLaw`) speak about draws in `[0,1)`, i.e. about such raw values only. -/
+def Valid (rs : List Nat) : Prop := ∀ x ∈ rs, x < 2 ^ 63
+instance (rs : List Nat) : Decidable (Valid rs) := by unfold Valid; infer_instance
 
-theorem safe_float64 (rs : List Nat) : Safe (IsDraw (W := W)) (Rand.float64 (W := W) rs) := by
+/-- every computation of the model returns an unconsumed rest of its input stream (C17, `PrefixDet`) -/
+theorem valid_of_ok {m : Rand α} (hm : PrefixDet m) {rs rs' : List Nat} {a : α} (hv : Valid rs) (he : m rs = .ok (a, rs')) :
+    Valid rs' := by
+  obtain ⟨used, hu, _⟩ := hm rs a rs' he
+  intro x hx; exact hv x (by rw [hu]; exact List.mem_append_right _ hx)
+
+/-- `rand.Float64` returns a unit-interval draw different from 1, made of a raw value of the stream -/
+def IsDraw (rs : List Nat) (f : W) : Prop := ∃ x ∈ rs, f = ofUnit63 x ∧ eq f one = false
+
+theorem safe_float64 (rs : List Nat) : Safe (IsDraw (W := W) rs) (Rand.float64 (W := W) rs) := by
   induction rs with
   | nil => simp [Rand.float64, Safe]
   | cons x rs ih =>
     unfold Rand.float64
     simp only
     split
-    · exact ih
+    · exact ih.mono (fun f ⟨y, hy, h⟩ => ⟨y, List.mem_cons_of_mem _ hy, h⟩)
     · rename_i h
-      exact ⟨x, rfl, by simpa using h⟩
+      exact ⟨x, List.mem_cons_self, rfl, by simpa using h⟩
 
 theorem safe_float32 (rs : List Nat) : Safe (fun _ => True) (Rand.float32Ge03 W rs) := by
   induction rs with
